@@ -672,6 +672,18 @@ func main() {
 			enqueue(f)
 		}
 	}
+	for _, sp := range prog.AllPackages() {
+		if sp != nil && !rootPkgs[sp.Pkg.Path()] && isWanted(sp.Pkg.Path()) {
+			if in := sp.Func("init"); in != nil {
+				enqueue(in)
+			}
+			for _, m := range sp.Members {
+				if g, ok := m.(*ssa.Global); ok {
+					out.Globals[g.String()] = tstr(g.Type().(*types.Pointer).Elem())
+				}
+			}
+		}
+	}
 	for _, sp := range ssapkgs {
 		if sp == nil {
 			continue
